@@ -3,7 +3,7 @@
    compute_root_layout + the memoised evaluation (Model/TaffyRoot.v `real_layout_passes f32_seqb` = `taffy_memo f32_seqb taffy_dispatch
    block_pre abs_child_block taffy_leaf`: Model/Engine.v `memo` with the exact-key caches -- key = every field of the LayoutInput,
    numbers compared by representation (Model/TaffyKey.v: what the hook's Debug-string key does) -- over Model/TaffyEngine.v `taffy_algo`:
-   the definitions C05_taffy_engine_hidden_invisible, C06_taffy_engine_instance and C01_taffy_engine_* are about) over the bit-exact F32 instance,
+   the definitions C05_taffy_engine_hidden_invisible, C06_taffy_engine_instance_partial and C01_taffy_engine_* are about) over the bit-exact F32 instance,
    starting from a FRESH tree, once per pass on the same tree, and encodes every node's stored layout after every pass as the harness
    prints it after `R`: per pass, per node, pre-order,
    [order; x; y; w; h; content w; content h; scrollbar w; scrollbar h; border l r t b; padding l r t b; margin l r t b].
